@@ -5,10 +5,21 @@
    Gen/TabColor.v); the tables are regenerated from the source on every run:
    CUBE / GREYS / grey levels of src/encoder.rs as exact decimals, and the
    library's sRGB->linear conversion of the 256 channel values (exact values of
-   the f32 results).  The implementation evaluates the same algorithm in f32;
-   the correspondence run compares it with the exact optimum up to 1e-6 in
-   distance (Corr/C20Corr.v; exhaustive runs: 30 near-ties among 2^24 colours,
-   worst excess 2.6e-7). *)
+   the f32 results).
+
+   WHAT IS PROVED AND WHAT IS RUN.  The theorems are about the EXACT-RATIONAL
+   algorithm (names `_exact_model`); the implementation evaluates the same
+   algorithm in f32, which is not modelled.  EPSILON = 1e-6 linear-light units
+   (Color256.tol256) is the single tolerance:
+     - proved: every typed table constant is within eps of the library's own
+       linearisation (C20_tables); hence the exact model's entry, measured at the
+       true palette positions, is closest up to 12 eps in SQUARED distance
+       (C20_closest_256_true_palette_upto_eps);
+     - run on every check, exhaustively over all 2^24 colours x 3 roles (harness
+       tool c20sweep, exact integers) and on the sampled Coq cases: the entry the
+       f32 implementation emits is within eps in DISTANCE of the brute-force
+       optimum at the true palette positions (observed: 30 colours not exactly
+       optimal, worst excess 2.62e-7) and equals the exact model's entry. *)
 From Coq Require Import List NArith ZArith Bool Sorted.
 From SNT Require Import Base.Outcome Encoder.Encode Encoder.Color256 Encoder.Color256Proofs Encoder.VT Encoder.Denote
   Encoder.EncodeMeaning Gen.TabColor.
@@ -32,13 +43,28 @@ Proof. exact pal_algo_optimal. Qed.
 Theorem C20_tables : tables_ok = true.
 Proof. exact tables_ok_true. Qed.
 
-(* 3. hence for every 8-bit colour: a closest entry among all 240 non-system ones *)
-Theorem C20_closest_256 :
+(* 3. hence for every 8-bit colour the exact model picks a closest entry among all 240
+      non-system ones, positions as typed in the tables *)
+Theorem C20_closest_256_exact_model :
   forall c : rgba,
   (16 <= pal256_exact c < 256)%N /\
   forall m, (16 <= m < 256)%N ->
     d2 (lin_vec c) (entry cube_z greys_z (pal256_exact c)) <= d2 (lin_vec c) (entry cube_z greys_z m).
 Proof. exact pal256_exact_optimal. Qed.
+
+(* 3b. EPSILON statement: at the TRUE palette positions (library's own linearisation of the
+       xterm levels 0,95,135,175,215,255 / 8+10k) the exact model's entry is closest up to
+       eps_sq_bound = 12 * eps * 1 in squared linear-light distance, eps = 1e-6 *)
+Theorem C20_closest_256_true_palette_upto_eps :
+  forall (c : rgba) m, (16 <= m < 256)%N ->
+    d2 (lin_vec c) (entry xcube_z xgreys_z (pal256_exact c))
+    <= d2 (lin_vec c) (entry xcube_z xgreys_z m) + eps_sq_bound.
+Proof. exact pal256_true_palette_upto_eps. Qed.
+
+(* 3c. the tolerance predicate of the correspondence check means "sqrt xx <= sqrt yy + eps" *)
+Theorem C20_tolerance_predicate :
+  forall a b e, 0 <= a -> 0 <= b -> 0 <= e -> (sqrt_le_plus (a * a) (b * b) e = true <-> a <= b + e).
+Proof. exact sqrt_le_plus_squares. Qed.
 
 (* 4. grey depth: the level is a nearest of the four by luma ... *)
 Theorem C20_gray_nearest :
@@ -67,13 +93,14 @@ Theorem C20_bruteforce_is_minimum :
   forall cube greys v m, (16 <= m < 256)%N -> best_d2 cube greys v <= d2 v (entry cube greys m).
 Proof. exact best_d2_spec. Qed.
 
-Check C20_closest_256 :
+Check C20_closest_256_exact_model :
   forall c : rgba,
   (16 <= pal256_exact c < 256)%N /\
   forall m, (16 <= m < 256)%N ->
     d2 (lin_vec c) (entry cube_z greys_z (pal256_exact c)) <= d2 (lin_vec c) (entry cube_z greys_z m).
 
 Example C20_nonvacuous :
+  eps_sq_bound * 1000000 = 12 * color_den * color_den /\
   pal256_exact (mkRgba 128 128 128 255) = 244%N /\          (* a grey-ramp entry beats the cube *)
   pal256_exact (mkRgba 255 0 0 255) = 196%N /\              (* a cube corner *)
   pal256_exact (mkRgba 3 3 3 255) = 16%N /\                 (* cube black beats the darkest grey *)
